@@ -890,7 +890,80 @@ def _registrars(ctx):
                               'registrars (found %d)' % inside, rule='C16.1')
 
 
+def _passthrough_set(ctx):
+    """C16.1: the passthrough rule files a container start writes become
+    entries of the passthrough IP set through the firewall watcher, which
+    counts the rule files per source and drops the entry with the last one.
+    Two structural conditions keep "removed again when the container is
+    finished" true across a restart of the watcher: the count it primes
+    itself with is one per rule file found (a count per distinct source is
+    short by one for every source two containers share, and the first finish
+    removes an entry the other container still needs), and the set is
+    emptied before it is primed (an entry whose rule file went away while
+    the watcher was down has no count and is never removed)."""
+    mod = ctx.index.module('treadmill.sproc.firewall')
+    watcher = mod.functions.get('_watcher')
+    init = mod.functions.get('_init_rules')
+    ctx.require(watcher is not None and init is not None,
+                'firewall._watcher / _init_rules', rule='C16.1')
+    graph = ctx.cfg(watcher)
+    counts = [n for n in graph.nodes if n.kind == 'stmt' and (
+        (isinstance(n.ast, ast.Assign) and isinstance(
+            n.ast.targets[0], ast.Subscript) and
+         isinstance(n.ast.value, ast.BinOp) and
+         isinstance(n.ast.value.op, ast.Add)) or
+        (isinstance(n.ast, ast.AugAssign) and isinstance(
+            n.ast.op, ast.Add) and isinstance(n.ast.target, ast.Subscript)))
+        and N.txt((n.ast.targets[0] if isinstance(n.ast, ast.Assign)
+                   else n.ast.target).value) == 'passthrough']
+    ctx.require(counts, 'priming of the passthrough reference count in '
+                '_watcher', rule='C16.1', func=watcher)
+
+    def dedup(expr, depth=0):
+        """the expression builds a set somewhere on its way"""
+        if depth > 4:
+            return False
+        for sub in ast.walk(expr):
+            if isinstance(sub, (ast.SetComp, ast.Set, ast.DictComp)):
+                return True
+            if isinstance(sub, ast.Call) and K.callee_text(sub) in (
+                    'set', 'frozenset', 'dict.fromkeys',
+                    'collections.OrderedDict.fromkeys'):
+                return True
+            if isinstance(sub, ast.Name):
+                for st in K.walk_no_nested(watcher.node):
+                    if isinstance(st, ast.Assign) and any(
+                            isinstance(t, ast.Name) and t.id == sub.id
+                            for t in st.targets) and st.value is not expr \
+                            and dedup(st.value, depth + 1):
+                        return True
+        return False
+    for node in counts:
+        loop = K.enclosing_for(graph, node)
+        src = K.rtxt(watcher, loop.ast.iter) if loop is not None else ''
+        ok = loop is not None and 'get_rules()' in src and \
+            not dedup(loop.ast.iter)
+        ctx.ob('C16.1', watcher, node, ok,
+               'the watcher primes the passthrough count with one reference '
+               'per rule file found (domain: %s)' % (src or 'no loop'),
+               construct='passthrough count primed per rule file')
+    igraph = ctx.cfg(init)
+    flushes = [n for n, _c in K.nodes_calling(
+        igraph, lambda c: K.callee_text(c).split('.')[-1] in (
+            'init_set', 'flush_set') and c.args and
+        N.txt(c.args[0]).endswith('SET_PASSTHROUGHS'))]
+    path = K.find_path(igraph.entry, [igraph.exit],
+                       cut_node=lambda n: n in flushes, follow_exc=False)
+    ctx.ob('C16.1', init, flushes[0] if flushes else None,
+           bool(flushes) and path is None,
+           'the passthrough set is emptied when the watcher starts, before '
+           'it is primed from the rule files',
+           path=K.describe(path) if path else None,
+           construct='passthrough set emptied at start')
+
+
 def check(ctx):
+    _passthrough_set(ctx)
     if ctx.tier in ('quick', 'thorough'):   # whole-package clause, cheap enough for every run
         _registrars(ctx)
     start, stop, created, removed, run, fin = _coverage(ctx)
